@@ -128,6 +128,10 @@ func runC14(r *report.Run) {
 				key = "periodic-reload-send-on-closed-channel"
 			}
 			r.Violation(key, fmt.Sprintf("shutdown while a reload is in progress and a periodic tick is pending: process died (exit %d) at %q:\n%s", pres.ExitCode, last, firstLines(pres.Stderr, 12)), map[string]string{"journal_last": last})
+		case pres.Summary["deadlock"] != nil:
+			r.Violation("", fmt.Sprintf("production wiring: shutdown deadlocks (%v):\n%v", pres.Summary["deadlock_at"], pres.Summary["deadlock"]), map[string]interface{}{"witness": pres.Summary["deadlock"]})
+		case pres.Summary["inconclusive"] != nil:
+			r.Inconclusive(fmt.Sprint(pres.Summary["inconclusive"]))
 		default:
 			if n, ok := pres.Summary["attempts"].(float64); ok {
 				r.Count("periodic_shutdown_attempts", int64(n))
@@ -422,9 +426,15 @@ func c14PeriodicWorker(args []string) int {
 		p.Release()
 		select {
 		case <-closed:
-		case <-time.After(10 * time.Second):
-			fmt.Println("shutdown did not return")
-			return 3
+		case <-time.After(90 * time.Second):
+			// wall-clock alone decides nothing: a structural witness makes it a deadlock, otherwise it is inconclusive
+			var zero int64
+			if w := lockDeadlockWitness(func() int64 { return atomic.LoadInt64(&zero) }); w != "" {
+				summary(map[string]interface{}{"deadlock": w, "deadlock_at": fmt.Sprintf("attempt %d %s: shutdown while a reload is in progress", a, b.Name)})
+				return 68
+			}
+			summary(map[string]interface{}{"inconclusive": fmt.Sprintf("attempt %d %s: shutdown had not returned after 90 s, no structural deadlock witness", a, b.Name), "attempts": done})
+			return 0
 		}
 		time.Sleep(300 * time.Millisecond)
 		dnsserver.SetVerifHook(nil)
